@@ -122,6 +122,8 @@ impl Rec {
 pub struct Ctx {
     pub id: &'static str,
     pub tier: Tier,
+    /// the tier that was asked for on the command line (reported); `tier` is the lattice that is enumerated
+    pub label: Tier,
     pub seed: i64,
     pub start: Instant,
     pub replay_case: Option<String>,
@@ -148,6 +150,7 @@ impl Ctx {
         Ctx {
             id,
             tier,
+            label: tier,
             seed,
             start: Instant::now(),
             replay_case,
@@ -368,7 +371,7 @@ pub fn finish(ctx: Ctx, verif_dir: &str) -> i32 {
     }
     let ev = json!({
         "property_id": ctx.id,
-        "tier": ctx.tier.name(),
+        "tier": ctx.label.name(),
         "seed": ctx.seed,
         "level": ctx.level,
         "coverage": Value::Object(coverage),
@@ -385,7 +388,7 @@ pub fn finish(ctx: Ctx, verif_dir: &str) -> i32 {
     println!(
         "[{}] tier={} cases={}/{} evaluations={} distinct_nontrivial={} skipped={} known_hits={} violations={} exhaustive={} wall={:.1}s",
         ctx.id,
-        ctx.tier.name(),
+        ctx.label.name(),
         ctx.cases_run,
         ctx.cases_total,
         ctx.total.evaluations,
@@ -449,8 +452,8 @@ pub fn finish(ctx: Ctx, verif_dir: &str) -> i32 {
         if n < 20 {
             let path = format!("{dir}/{}.json", sanitize(&v.key));
             let rp = json!({
-                "property": ctx.id, "tier": ctx.tier.name(), "case_key": v.case_key, "key": v.key, "detail": v.detail,
-                "how_to_replay": format!("bin/check {} {} --replay {}", ctx.id, ctx.tier.name(), path),
+                "property": ctx.id, "tier": ctx.label.name(), "case_key": v.case_key, "key": v.key, "detail": v.detail,
+                "how_to_replay": format!("bin/check {} {} --replay {}", ctx.id, ctx.label.name(), path),
             });
             let _ = std::fs::write(&path, serde_json::to_string_pretty(&rp).unwrap());
             if first_path.is_empty() {
